@@ -149,6 +149,7 @@ def run_slice(prog, ob, slice_dom, checks_on, qdir, tier_timeout, validate_point
             rec.update(verdict='inconclusive', reason='contract predicate may panic (%s)' % rc.verdict, queries=queries); return rec
     rv = ask('violation', viol, 'unsat', timeout)
     rec['queries'] = queries
+    rec['wall_s'] = round(time.time() - t_start, 2)
     rec['solver_s'] = round(sum(q['secs'] for q in queries), 3)
     if rv.verdict == 'unsat':
         if rw.verdict == 'sat': rec['verdict'] = 'holds'
